@@ -44,8 +44,9 @@ CLAIMS = {
              "prox output, a guarded acceptance, a line-search combination or the intercept "
              "slot; every penalty whose prox enforces a constraint returns +inf from value() "
              "on infeasible points (so the acceptance guard can reject them); the positive "
-             "flag reaches every prox helper and every score. Does not decide finiteness "
-             "under overflow.",
+             "flag reaches every prox helper and every score; the lifted block prox of every "
+             "positive group penalty is non-negative on every sign region of a two-coefficient "
+             "block, zero group weight included. Does not decide finiteness under overflow.",
         design_ref="DESIGN.md §3.6 R-INF/R-POS/R-WRITE, §4 C04",
         note="Order-region evaluation of the projection helpers (R-REGION) is part of the "
              "algebraic tier (C07).",
@@ -93,9 +94,16 @@ CLAIMS = {
              "returned exactly when |x| <= s*t with t the kink threshold of value(); outputs are "
              "non-negative under positive=True; box penalties project. Plus: the positive flag "
              "reaches every prox helper, divisions by input norms are guarded (zero input). "
-             "Global optimality of the closed forms prox_SCAD, prox_05, prox_2_3, prox_log_sum, "
-             "prox_SLOPE and of block proxes beyond their guards is not claimed.",
-        design_ref="DESIGN.md §3.5 R-REGION/R-THR, §4 C07",
+             "Block and group proxes (L2_1, BlockMCPenalty, BlockSCAD, WeightedGroupL2 with both "
+             "values of positive and zero group weight, WeightedL1GroupL2) on every sign/magnitude "
+             "region of a two-coefficient block: first-order condition of the penalty's own "
+             "value() on the support (block norms solved as unknowns and checked against their "
+             "radicands), coordinate-wise optimality of zeros, non-negativity, zero block exactly "
+             "within stepsize * slope of value at 0. prox_SCAD: the returned candidate is "
+             "stationary on every region. Global optimality (beyond stationarity) of the closed "
+             "forms prox_SCAD, prox_05, prox_2_3, prox_log_sum, prox_block_2_05, prox_SLOPE is "
+             "not claimed.",
+        design_ref="DESIGN.md §3.5 R-PROXFOC, §3.6 R-PROXFOC-BLOCK, §4 C07",
         note="Witness values only select branches; hyper-parameters are assumed positive and "
              "s < gamma (admissible step range).",
         technique="order-region abstract evaluation + symbolic first-order-condition identity "
@@ -108,8 +116,11 @@ CLAIMS = {
              "limit of the derivative (score 0 for infinite t), +inf for negative coefficients "
              "under positive=True, and the normal-cone template for indicator penalties; the "
              "positive flag has a `w<0 -> inf` branch in every score; divisions in scores and "
-             "fixed-point scores are guarded. Block/group scores are decided only through "
-             "their guards.",
+             "fixed-point scores are guarded. Block and group scores (L2_1, L2_05, "
+             "BlockMCPenalty, BlockSCAD, WeightedGroupL2 with both values of positive) on every "
+             "region of a two-coefficient block in the working set equal the Euclidean norm of "
+             "the coordinate-wise distances of -grad to the subdifferential derived from the "
+             "penalty's own value().",
         design_ref="DESIGN.md §3.5 R-DERIV (penalties), §4 C08",
         note="Strict and non-strict inequalities are identified (agreement almost everywhere); "
              "equality tests `w == 0` are exact.",
